@@ -15,15 +15,12 @@ def run(ctx):
     res.extra["kick_topic_invite_commands"] = n
     res.floor("kick_topic_invite_commands", n, 1200)
     res.floor("distinct_rank_cases", len(res.distinct), 60)
-    common.run_big(ctx, res, ("C09",))
     for r in results[:3]:
         if r.get("tail"):
             res.add_sample({"episode_seed": r["seed"], "last_commands": r["tail"]})
     res.assumptions = ["observation at the client sockets with the barrier protocol (DESIGN 2.3)",
                        "snapshot hook reads the state under the server's own lock",
                        "reference model of DESIGN 2.4 encodes the statement; unspecified choices are resynchronised, not judged"]
-    # every rank against every rank, deterministically: KICK, TOPIC on +t, INVITE on +i, MODE +v by each of 8 rank sets
-    common.run_rank_matrix(ctx, res, ("C09",))
     return res
 
 
